@@ -505,6 +505,11 @@ func (sa *Safe) joinCases(fr *frame, sig *types.Signature, name string, rets []r
 		}
 	}
 	vals := make([]AVal, nres)
+	type siteBind struct {
+		a   atomID
+		lin *Lin
+	}
+	binds := make([][]siteBind, len(rets))
 	for i := 0; i < nres; i++ {
 		t := sig.Results().At(i).Type()
 		// identical everywhere?
@@ -533,9 +538,13 @@ func (sa *Safe) joinCases(fr *frame, sig *types.Signature, name string, rets []r
 				}
 			}
 			js.itv[a] = iv.meet(mustRange(t))
-			for _, rc := range rets {
+			for ri, rc := range rets {
 				if rc.vals[i].Lin != nil {
+					binds[ri] = append(binds[ri], siteBind{a, rc.vals[i].Lin})
 					rc.st.itv[a] = rc.st.linItv(rc.vals[i].Lin).meet(mustRange(t))
+					d := linAtom(a).add(rc.vals[i].Lin, -1)
+					rc.st.assume(d)
+					rc.st.assume(d.scale(-1))
 				}
 			}
 		case avPtr, avSlice, avIface, avMap, avStr:
@@ -579,11 +588,15 @@ func (sa *Safe) joinCases(fr *frame, sig *types.Signature, name string, rets []r
 			if v.Len != nil {
 				a := onlyAtom(v.Len)
 				iv := Itv{posInf, negInf}
-				for _, rc := range rets {
+				for ri, rc := range rets {
 					if rc.vals[i].Len != nil {
+						binds[ri] = append(binds[ri], siteBind{a, rc.vals[i].Len})
 						l := rc.st.linItv(rc.vals[i].Len)
 						iv = iv.join(l)
 						rc.st.itv[a] = l.meet(Itv{0, posInf})
+						d := linAtom(a).add(rc.vals[i].Len, -1)
+						rc.st.assume(d)
+						rc.st.assume(d.scale(-1))
 					} else {
 						iv = Itv{0, posInf}
 					}
@@ -611,15 +624,38 @@ func (sa *Safe) joinCases(fr *frame, sig *types.Signature, name string, rets []r
 	}
 	if errIdx >= 0 && vals[errIdx].HasSym {
 		var nilS, nonS *State
-		for _, rc := range rets {
-			n := rc.st.valNil(rc.vals[errIdx])
+		for ri, rc := range rets {
+			ev := rc.vals[errIdx]
+			n := rc.st.valNil(ev)
+			retighten := func(p *State) {
+				for _, b := range binds[ri] {
+					p.itv[b.a] = p.atomItv(b.a).meet(p.linItv(b.lin))
+				}
+			}
 			if n == nilYes || n == nilMaybe {
-				sa.u.joinSite = fmt.Sprintf("f%d.retnil", fr.id)
-				nilS = joinStates(nilS, rc.st)
+				part := rc.st
+				if n == nilMaybe && ev.HasSym {
+					// the site's own error value may be nil or not: take what is known when it is nil
+					part = rc.st.clone()
+					sa.refine(part, &Cond{Op: "nil", Sym: ev.Sym}, true)
+					retighten(part)
+				}
+				if !part.dead {
+					sa.u.joinSite = fmt.Sprintf("f%d.retnil", fr.id)
+					nilS = joinStates(nilS, part)
+				}
 			}
 			if n == nilNo || n == nilMaybe {
-				sa.u.joinSite = fmt.Sprintf("f%d.retnon", fr.id)
-				nonS = joinStates(nonS, rc.st)
+				part := rc.st
+				if n == nilMaybe && ev.HasSym {
+					part = rc.st.clone()
+					sa.refine(part, &Cond{Op: "nil", Sym: ev.Sym}, false)
+					retighten(part)
+				}
+				if !part.dead {
+					sa.u.joinSite = fmt.Sprintf("f%d.retnon", fr.id)
+					nonS = joinStates(nonS, part)
+				}
 			}
 		}
 		g := &Guard{WhenNil: partialOf(nilS), WhenNonNil: partialOf(nonS)}
